@@ -1205,7 +1205,12 @@ class Point(AbstractPoint):
         # From X9.62 D.3.2:
 
         e3 = 3 * e
-        negative_self = Point(self.__curve, self.__x, -self.__y, self.__order)
+        negative_self = Point(
+            self.__curve,
+            self.__x,
+            -self.__y % self.__curve.p(),
+            self.__order,
+        )
         i = leftmost_bit(e3) // 2
         result = self
         # print_("Multiplying %s by %d (e3 = %d):" % (self, other, e3))
